@@ -3912,3 +3912,89 @@ def t_grammar_prefix_order(facts, res, tier):
         visit(rname, r["expr"])
     if n == 0:
         raise AnchorMissing("the grammar has no choice between tokens")
+
+
+@rule("T-TRUTH-WIDE", floor=3,
+      text="`if (v)` asks whether v is non-zero - all of v.  In the arm of generate_simple_condition that tests a bare operand, each of the three "
+           "memory operand kinds hands a 16-bit operand to generate_condition_16bits: `Absolute` under its width flag (`!eight_bits`), `AbsoluteX` "
+           "and `AbsoluteY` under a test of the variable's type that names ShortPtr and CharPtrPtr.  `short t[4]; if (t[X])` otherwise looks at "
+           "the low byte only, while `if (t[2])` and `if (t[X] != 0)` look at both")
+def t_truth_wide(facts, res, tier):
+    fn = facts.fn("generate_simple_condition", genmodel.GEN_QUAL)
+    n = 0
+    for m in walk(fn["body"]):
+        if m.get("k") != "match":
+            continue
+        pats = [pat_text(a["pat"]).replace(" ", "") for a in m["arms"]]
+        if not (any(p.startswith("ExprType::Absolute(") for p in pats) and any(p.startswith("ExprType::AbsoluteX(") for p in pats) and any(p.startswith("ExprType::Immediate(") for p in pats)):
+            continue
+        for a in m["arms"]:
+            pt = pat_text(a["pat"]).replace(" ", "")
+            mm = re.match(r"ExprType::(Absolute[XY]?)\(", pt)
+            if not mm:
+                continue
+            n += 1
+            kind = mm.group(1)
+            key = "T-TRUTH-WIDE:generate_simple_condition:%s" % kind
+            conds = []
+            for x in walk(a["body"]):
+                if x.get("k") == "if" and any(_self_call(y, ("generate_condition_16bits",)) for y in walk(x["then"])):
+                    conds.append(expr_text(x["cond"]).replace(" ", ""))
+            res.inst(key, True, {"operand": kind, "wide_under": conds})
+            if kind == "Absolute":
+                ok = any("eight_bits" in c for c in conds)
+            else:
+                ok = any("ShortPtr" in c and "CharPtrPtr" in c for c in conds)
+            if not ok:
+                res.fail(key, facts.where(fn, a["body"]), "generate_simple_condition, operand %s: the truth test never hands a 16-bit operand to generate_condition_16bits (%s): only the low byte decides" % (kind, "conditions seen: %s" % conds if conds else "no call under a condition"))
+    if n == 0:
+        raise AnchorMissing("generate_simple_condition: the match on the bare operand was not found")
+
+
+@rule("T-Y-KEPT-FOR-HIGH", floor=1,
+      text="an assignment to a 16-bit destination stores the low byte, then - without evaluating the destination again - the high byte.  When the "
+           "destination is indexed by a Y that was parked for it (`ExprType::AbsoluteY`, `saved_y`), Y is still that index when the high byte is "
+           "stored: in the Assign arm of generate_expr every restore of the parked Y that comes before the high byte pass is excluded for such a "
+           "destination (`!matches!(left, ExprType::AbsoluteY(_))`, directly or through a local).  `sarr[i] = s` otherwise writes the high byte at "
+           "the index Y had before the statement")
+def t_y_kept_for_high(facts, res, tier):
+    from scopes import scoped
+    fn = facts.fn("generate_expr", genmodel.GEN_QUAL)
+    par = _parents(fn["body"])
+    n = 0
+    for c in walk(fn["body"]):
+        if not (_self_call(c, ("generate_assign",)) and c.get("args") and c["args"][-1].get("k") == "lit" and c["args"][-1].get("v") is True):
+            continue
+        # the Assign arm: the arm of the operator match that contains this second pass
+        q = c
+        arm = None
+        while q is not None:
+            pq, kq, iq = par.get(id(q), (None, None, None))
+            if pq is not None and pq.get("k") == "match" and kq == "arms" and pat_text(q["pat"]).replace(" ", "") == "Operation::Assign":
+                arm = q
+                break
+            q = pq
+        if arm is None:
+            continue
+        stmts = arm["body"].get("stmts", [])
+        idx = next((i for i, s in enumerate(stmts) if any(y is c for y in walk(s))), None)
+        if idx is None:
+            continue
+        lets = {s["pat"]["name"]: expr_text(s["init"]).replace(" ", "") for s in stmts if s.get("k") == "let" and s.get("pat", {}).get("k") == "ident" and s.get("init") is not None}
+        for s in stmts[:idx]:
+            for x in walk(s):
+                if _self_call(x, ("asm_restore_y", "restore_saved_y")):
+                    n += 1
+                    key = "T-Y-KEPT-FOR-HIGH:generate_expr:Assign"
+                    # the condition of the enclosing if (within this statement)
+                    cond = expr_text(s["cond"]).replace(" ", "") if s.get("k") == "if" else ""
+                    expanded = cond
+                    for nm, init in lets.items():
+                        expanded = re.sub(r"!%s\b" % re.escape(nm), "!(" + init + ")", expanded)
+                    ok = bool(re.search(r"!\(?matches!\(\w+,ExprType::AbsoluteY\(", expanded))
+                    res.inst(key, True, {"restore_before_the_high_byte_pass_under": cond[:80], "excludes_a_Y_indexed_destination": ok})
+                    if not ok:
+                        res.fail(key, facts.where(fn, x), "generate_expr (assignment) restores the parked Y before the high byte pass under `%s`, also when the destination is the operand indexed by that Y: the high byte is stored at another index" % (cond[:60] or "no condition"))
+        break
+    if n == 0:
+        raise AnchorMissing("generate_expr: no restore of the parked Y before the second pass of an assignment")
